@@ -20,6 +20,6 @@ cCmtPrefix == <<"a", " ", "/", "*", "*", "/", " ">>
 cSqPrefix == <<"a", " ", cSQ, "q", cSQ, "+">>
 cMbPrefix == <<"E", " ", "/", "*", "E", cLF, "*", "/", cSQ, "E", cLF, cSQ, cTAB>>
 \* token level: whole lexemes
-TokAlphabet == { <<"k">>, <<"a","r","g">>, <<cDQ,"s"," ",cLF," "," ","t",cDQ>>, <<cSQ,"q",cSQ>>, <<"+">>, <<";">>, <<"{">>, <<"}">>,
+TokAlphabet == { <<"k">>, <<"a","r","g">>, <<cDQ,"s"," ",cLF," "," ","t",cDQ>>, <<cSQ,"q",cSQ>>, <<"+">>, <<cDQ,"+",cDQ>>, <<";">>, <<"{">>, <<"}">>,
                  <<"/","/","c",cLF>>, <<"/","*","c","*","/">>, <<" ">>, <<cLF>>, <<cCR,cLF>> }
 ====
